@@ -1741,7 +1741,7 @@ fn ksk_roll(rollop: RollOp<'_>, ks: &mut KeySet) -> Result<(), Error> {
                     .timestamps
                     .visible
                     .as_ref()
-                    .expect("Should have been set in Propagation1");
+                    .ok_or(Error::WrongKeyState)?;
                 let elapsed = visible.elapsed();
                 let ttl = Duration::from_secs(ttl.into());
                 if elapsed < ttl {
@@ -1788,7 +1788,7 @@ fn ksk_roll(rollop: RollOp<'_>, ks: &mut KeySet) -> Result<(), Error> {
                     .timestamps
                     .ds_visible
                     .as_ref()
-                    .expect("Should have been set in Propagation2");
+                    .ok_or(Error::WrongKeyState)?;
                 let elapsed = ds_visible.elapsed();
                 let ttl = Duration::from_secs(ttl.into());
                 if elapsed < ttl {
@@ -1866,7 +1866,7 @@ fn ksk_double_ds_roll(
                     .timestamps
                     .ds_visible
                     .as_ref()
-                    .expect("Should have been set in Propagation1");
+                    .ok_or(Error::WrongKeyState)?;
                 let elapsed = ds_visible.elapsed();
                 let ttl = Duration::from_secs(ttl.into());
                 if elapsed < ttl {
@@ -1919,7 +1919,7 @@ fn ksk_double_ds_roll(
                     .timestamps
                     .visible
                     .as_ref()
-                    .expect("Should have been set in Propagation2");
+                    .ok_or(Error::WrongKeyState)?;
                 let elapsed = visible.elapsed();
                 let ttl = Duration::from_secs(ttl.into());
                 if elapsed < ttl {
@@ -2039,7 +2039,7 @@ fn zsk_roll(rollop: RollOp<'_>, ks: &mut KeySet) -> Result<(), Error> {
                     .timestamps
                     .visible
                     .as_ref()
-                    .expect("Should have been set in Propagation1");
+                    .ok_or(Error::WrongKeyState)?;
                 let elapsed = visible.elapsed();
                 let ttl = Duration::from_secs(ttl.into());
                 if elapsed < ttl {
@@ -2088,7 +2088,7 @@ fn zsk_roll(rollop: RollOp<'_>, ks: &mut KeySet) -> Result<(), Error> {
                     .timestamps
                     .rrsig_visible
                     .as_ref()
-                    .expect("Should have been set in Propagation2");
+                    .ok_or(Error::WrongKeyState)?;
                 let elapsed = rrsig_visible.elapsed();
                 let ttl = Duration::from_secs(ttl.into());
                 if elapsed < ttl {
@@ -2165,7 +2165,7 @@ fn zsk_double_signature_roll(
                     .timestamps
                     .visible
                     .as_ref()
-                    .expect("Should have been set in Propagation1");
+                    .ok_or(Error::WrongKeyState)?;
                 let elapsed = visible.elapsed();
                 let ttl = Duration::from_secs(ttl.into());
                 if elapsed < ttl {
@@ -2209,7 +2209,7 @@ fn zsk_double_signature_roll(
                     .timestamps
                     .rrsig_visible
                     .as_ref()
-                    .expect("Should have been set in Propagation1");
+                    .ok_or(Error::WrongKeyState)?;
                 let elapsed = rrsig_visible.elapsed();
                 let ttl = Duration::from_secs(ttl.into());
                 if elapsed < ttl {
@@ -2320,7 +2320,7 @@ fn csk_roll(rollop: RollOp<'_>, ks: &mut KeySet) -> Result<(), Error> {
                     .timestamps
                     .visible
                     .as_ref()
-                    .expect("Should have been set in Propagation1");
+                    .ok_or(Error::WrongKeyState)?;
                 let elapsed = visible.elapsed();
                 let ttl = Duration::from_secs(ttl.into());
                 if elapsed < ttl {
@@ -2421,7 +2421,7 @@ fn csk_roll(rollop: RollOp<'_>, ks: &mut KeySet) -> Result<(), Error> {
                     .timestamps
                     .rrsig_visible
                     .as_ref()
-                    .expect("Should have been set in Propagation1");
+                    .ok_or(Error::WrongKeyState)?;
                 let elapsed = rrsig_visible.elapsed();
                 let ttl = Duration::from_secs(ttl.into());
                 if elapsed < ttl {
@@ -2550,7 +2550,7 @@ fn algorithm_roll(rollop: RollOp<'_>, ks: &mut KeySet) -> Result<(), Error> {
                     .timestamps
                     .visible
                     .as_ref()
-                    .expect("Should have been set in Propagation1");
+                    .ok_or(Error::WrongKeyState)?;
                 let elapsed = visible.elapsed();
                 let ttl = Duration::from_secs(ttl.into());
                 if elapsed < ttl {
@@ -2607,7 +2607,7 @@ fn algorithm_roll(rollop: RollOp<'_>, ks: &mut KeySet) -> Result<(), Error> {
                     .timestamps
                     .ds_visible
                     .as_ref()
-                    .expect("Should have been set in Propagation2");
+                    .ok_or(Error::WrongKeyState)?;
                 let elapsed = ds_visible.elapsed();
                 let ttl = Duration::from_secs(ttl.into());
                 if elapsed < ttl {
